@@ -942,8 +942,11 @@ package zygo
 //@ C02 ensures empty: len(gen.instructions) == 0
 //@ func NewGenerator
 //@ C02 ensures empty: len(r0.instructions) == 0
+//@ C02 preserves Generator.instructions
 //@ func (*Generator).NewSubGenerator
 //@ C02 ensures empty: len(r0.instructions) == 0 && fresh(r0)
+//@ C02 preserves Generator.instructions
+//@ clauseall \(\*Generator\)\.(Generate[A-Za-z]*|generateSyntaxQuote[A-Za-z]*) :: assume preserves Generator.instructions except gen
 
 // cond, built from the default arm upwards:  pred | branch-if-false | arm | jump | rest
 //@ func (*Generator).GenerateCond
@@ -958,3 +961,47 @@ package zygo
 //@ C02 assert branch-on-false @before call AddInstruction[0]: typeis(arg1, BranchInstr) && !arg1.(BranchInstr).direction
 //@ C02 assert arm-ends-with-jump @before call AddInstruction[1]: typeis(arg1, JumpInstr)
 //@ C02 loop 0 invariant layout: brAt >= 0 ==> brAt + brLoc == jmpAt + 1 && jmpAt + jmpLoc == len(instructions)
+
+// and / or, built from the last operand upwards:  operand | dup | branch-if-decided | pop | rest
+// the branch skips the pop and the rest, leaving the deciding value as the result
+//@ func (*Generator).GenerateShortCircuit
+//@ ghost brAt := 0 - 1 @entry
+//@ ghost brLoc := 0 @entry
+//@ ghost brAt := ite(typeis(arg1, BranchInstr), len(arg0.instructions), brAt) @before call AddInstruction[*]
+//@ ghost brLoc := ite(typeis(arg1, BranchInstr), arg1.(BranchInstr).location, brLoc) @before call AddInstruction[*]
+//@ C02 assert decided-by-operator @before call AddInstruction[*]: typeis(arg1, BranchInstr) ==> arg1.(BranchInstr).direction == or
+//@ C02 assert dup-before-branch @before call AddInstruction[*]: typeis(arg1, BranchInstr) ==> len(arg0.instructions) >= 1 && typeis(arg0.instructions[len(arg0.instructions)-1], DupInstr)
+//@ C02 assert pop-right-after-branch @before call AddInstruction[*]: typeis(arg1, PopInstr) ==> len(arg0.instructions) == brAt + 1
+//@ C02 loop 0 invariant layout: brAt >= 0 ==> brAt + brLoc == len(instructions)
+
+// (a label is a no-op, so landing on it or on the instruction after it is the same)
+//@ func (LabelInstr).Execute
+//@ C02 modifies env.pc
+//@ C02 ensures no-op: r0 == nil && env.pc == old(env.pc) + 1
+// for:  loopstart | scope | mark | init | jump-to-test | [continue:] incr | test | branch-if-false
+//       | body | jump-back | end-label | [break:] cleanup
+//@ func (*Generator).GenerateForLoop
+//@ ghost lp := arg1.(LoopStartInstr).loop @before call AddInstruction[0]
+//@ ghost startAt := len(arg0.instructions) @before call AddInstruction[0]
+//@ ghost jtAt := len(arg0.instructions) @before call AddInstruction[7]
+//@ ghost jtLoc := arg1.(JumpInstr).addpc @before call AddInstruction[7]
+//@ ghost contAt := len(arg0.instructions) @before call AddInstruction[8]
+//@ ghost incrAt := len(arg0.instructions) @before call AddInstructions[1]
+//@ ghost testLabelAt := len(arg0.instructions) @before call AddInstruction[9]
+//@ ghost testAt := len(arg0.instructions) @before call AddInstructions[2]
+//@ ghost brAt := len(arg0.instructions) @before call AddInstruction[10]
+//@ ghost brLoc := arg1.(BranchInstr).location @before call AddInstruction[10]
+//@ ghost bodyAt := len(arg0.instructions) @before call AddInstructions[3]
+//@ ghost backAt := len(arg0.instructions) @before call AddInstruction[12]
+//@ ghost backLoc := arg1.(JumpInstr).addpc @before call AddInstruction[12]
+//@ ghost endAt := len(arg0.instructions) @before call AddInstruction[13]
+//@ ghost cleanupAt := len(arg0.instructions) @before call AddInstruction[14]
+//@ C02 assert init-then-test @before call AddInstruction[7]: arg0 == gen && typeis(arg1, JumpInstr)
+//@ C02 assert leaves-on-false @before call AddInstruction[10]: arg0 == gen && typeis(arg1, BranchInstr) && !arg1.(BranchInstr).direction && len(arg0.instructions) == testAt + len(test_code)
+//@ C02 assert body-then-increment @before call AddInstruction[12]: arg0 == gen && typeis(arg1, JumpInstr) && len(arg0.instructions) == bodyAt + len(subgenBody.instructions)
+//@ C02 assert init-jumps-to-test @before call AddInstruction[14]: (jtAt + jtLoc == testLabelAt || jtAt + jtLoc == testAt) && testAt == testLabelAt + 1
+//@ C02 assert increment-precedes-test @before call AddInstruction[14]: contAt == jtAt + 1 && incrAt == contAt + 1 && testLabelAt == incrAt + len(incr_code)
+//@ C02 assert false-test-leaves-loop @before call AddInstruction[14]: (brAt + brLoc == endAt || brAt + brLoc == cleanupAt) && bodyAt == brAt + 2
+//@ C02 assert body-jumps-to-increment @before call AddInstruction[14]: (backAt + backLoc == contAt || backAt + backLoc == incrAt) && endAt == backAt + 1
+//@ C02 assert cleanup-follows @before call AddInstruction[14]: arg0 == gen && typeis(arg1, ClearStackmarkInstr) && cleanupAt == endAt + 1
+//@ C02 ensures break-continue-targets: r0 == nil ==> (lp.breakOffset == cleanupAt - startAt || lp.breakOffset == endAt - startAt) && (lp.continueOffset == contAt - startAt || lp.continueOffset == incrAt - startAt)
